@@ -47,6 +47,13 @@ def configs(tier):
                     "warm_connect": True,
                     "script": [["cluster", "remove_broker", gone], ["call", "metadata", []], ["close"],
                                ["call", "metadata", ["t"]]], "menu": MENU})
+    # two successive full refreshes each dropping a broker whose disconnect is still pending, then close()
+    cluster4 = {"brokers": [1, 2, 3, 4], "topics": {"t": {"0": 1, "1": 2}, "u": {"0": 3, "1": 4}}}
+    out.append({"cluster": cluster4, "discovery": False, "timeout_ms": 2000, "warm": [["t", "u"], []],
+                "warm_connect": True,
+                "script": [["cluster", "remove_broker", 4], ["call", "metadata", []], ["cluster", "remove_broker", 3],
+                           ["call", "metadata", []], ["close"]],
+                "menu": dict(MENU, lazy_close=True)})
     # discovery on: ApiVersions exchange in progress when close() arrives
     out.append({"cluster": CLUSTER1, "discovery": True, "timeout_ms": 2000,
                 "script": [["call", "produce", [["t", 0, ["a"]]], {"foe": False}], ["close"]], "menu": MENU})
